@@ -110,6 +110,22 @@ StateMonitors(e, s2, hv2) ==
   /\ Check(\A w \in Wallets(s2) \ aux.dirty : ReservationHeld(s2, hv2, w), "C03", "ReservationHeld", e, "")
   /\ Check(NoRevertedSelected(st, s2, e.ev = "finalize"), "C18", "NeverSelectsReverted", e, "")
   /\ Check(\A w \in DOMAIN s2.w : \A k \in DOMAIN s2.w[w].outs : s2.w[w].outs[k].v >= 0, "C01", "NonNegative", e, "")
+\* C04: one account's operations never spend or reserve another account's outputs - a step that acts for account `a`
+\* (the source account of a send, the account of the transaction's context, the active account of a cancel) leaves
+\* the status of every output of the wallet's OTHER accounts alone (a refresh embedded in the step concerns `a` or the
+\* active account only)
+ActsFor(e, s) ==
+  LET w == e.w IN
+  IF e.ev = "init_send" \/ e.ev = "process_invoice"
+  THEN AcctOf(s, w, IF Has(e, "args") /\ Has(e.args, "src") THEN e.args.src ELSE "")
+  ELSE IF Has(e, "sl") /\ e.sl \in DOMAIN s.w[w].ctxs THEN s.w[w].ctxs[e.sl].acct
+  ELSE s.w[w].active
+AccountIsolation(e, s, s2) ==
+  LET w == e.w  a == ActsFor(e, s) IN
+  Check(\A k \in DOMAIN s.w[w].outs :
+           (s.w[w].outs[k].acct # a /\ s.w[w].outs[k].acct # s.w[w].active)
+              => (k \in DOMAIN s2.w[w].outs /\ s2.w[w].outs[k].st = s.w[w].outs[k].st),
+        "C04", "AccountIsolation", e, "")
 \* code under test must never panic in these operations
 NoPanic(e) == Check(e.res # "panic", "C06", "NoPanic", e, IF Has(e, "detail") THEN e.detail ELSE "")
 
@@ -187,6 +203,7 @@ TInitSend ==
                       "C01", "ErrPersistsNothing", e, "")
              /\ MatchState(LET nb == S2.w[w].idx[S2.w[w].active].child - st.w[w].idx[st.w[w].active].child IN
                            LastOf(InitSendErr(st, w, a, nb).steps), e, "InitSendErr")
+     /\ AccountIsolation(E, st, S2)
      /\ Step(hv)
 
 \* ---- lock -------------------------------------------------------------
@@ -202,6 +219,7 @@ TLock ==
      /\ (~Ok(e)) => Check(S2.w[w] = st.w[w], "C03", "FailedLockUnchanged", e, "")
      /\ CheckMatch((r.res = "ok") = Ok(e), e, "Lock:res:" \o r.res)
      /\ MatchState(LastOr(r.steps, st), e, "Lock")
+     /\ AccountIsolation(E, st, S2)
      /\ Step(hv2)
 
 \* ---- receive ----------------------------------------------------------
@@ -301,6 +319,7 @@ TFinalize ==
              /\ MatchState(LastOr(r.steps, st), e, "Finalize")
         ELSE /\ CheckMatch(~Ok(e), e, "Finalize:noctx")
              /\ MatchState(st, e, "Finalize:noctx")
+     /\ AccountIsolation(E, st, S2)
      /\ Step(hv2)
 
 \* ---- cancel -----------------------------------------------------------
@@ -326,6 +345,7 @@ TCancel ==
         ELSE LET r == Cancel(st, w, a, aux.nodeUp) IN
              /\ CheckMatch((r.res = "ok") = Ok(e), e, "Cancel:res:" \o r.res)
              /\ MatchState(LastOr(r.steps, st), e, "Cancel")
+     /\ AccountIsolation(E, st, S2)
      /\ Step(hv)
 
 \* ---- post / mine / node ----------------------------------------------------
@@ -491,6 +511,7 @@ TProcessInvoice ==
      /\ (~Ok(e)) => Check(DOMAIN S2.w[w].ctxs = DOMAIN st.w[w].ctxs /\ LockedKeys(S2, w) = LockedKeys(st, w),
                           "C01", "ErrPersistsNothing", e, "process_invoice")
      /\ Ok(e) => MatchState(LastOf(r.steps), e, "ProcessInvoice")
+     /\ AccountIsolation(E, st, S2)
      /\ Step(IF Ok(e) THEN HvDone(hv, w, "process_invoice", e.sl) ELSE hv)
 
 \* ---- crash / failing write at a persistent-effect boundary (C06) -----------------
